@@ -210,6 +210,12 @@ def run(rep: Report, tier: str) -> None:
                         if (k1, v1) != (k2, v2):
                             add("R11.3", f"not commutative for {cell}: ({rev[a]},{rev[b]}) → {k1} {v1}, swapped → {k2} {v2} "
                                 f"[commutative operator(s): {','.join(commutative_pairs[(ttc, rt)])}]", "binary_implicit_promotion")
+                    elif ttc is None and rt is None:
+                        # the untyped promotion (if-then-else, case, nvl ... call it with two types only) computes THE common type of two types: symmetric by definition
+                        rep.instance("R11.3", "binary-untyped/" + cell, nontrivial=nontriv)
+                        if (k1, v1) != (k2, v2):
+                            add("R11.3", f"untyped promotion is not symmetric for {cell}: ({rev[a]},{rev[b]}) → {k1} {v1}, swapped → {k2} {v2}: the declared type of "
+                                f"`if c then <{rev[a]}> else <{rev[b]}>` depends on the order of the branches (an Integer result carrying 3.5)", "binary_implicit_promotion")
                     elif (k1, v1) != (k2, v2) and (ttc, rt) in pairs:
                         noncomm_info.add(f"{cell}: {k1} {v1} vs swapped {k2} {v2}")
                     rep.instance("R11.4", "binary/" + cell, nontrivial=nontriv)
